@@ -1638,7 +1638,7 @@ class AstEval:
 
     async def ast_unaryop_uadd(self, arg0):
         """Evaluate unary operator: +."""
-        return await self.aeval(arg0)
+        return +(await self.aeval(arg0))
 
     async def ast_unaryop_usub(self, arg0):
         """Evaluate unary operator: -."""
